@@ -600,7 +600,7 @@ def _build_end_to_end(ctx, rid, reg):
             {"name": "s2", "data": [at("a_s2_0")], "modifiers": [mod("ss", "shapesys", [at("uss_a0")])]}]},
         {"name": "cm", "samples": [
             {"name": "s1", "data": [at("m_s1_0"), at("m_s1_1")], "modifiers": [mod("hs", "histosys", {"hi_data": [at("h0"), at("h1")], "lo_data": [at("l0"), at("l1")]}), mod("lumi", "lumi")]},
-            {"name": "s2", "data": [at("m_s2_0"), at("m_s2_1")], "modifiers": [mod("st", "staterror", [at("ust_m0"), at("ust_m1")]), mod("sf", "shapefactor"), mod("ns", "normsys", {"hi": at("HI2"), "lo": at("LO2")})]}]},
+            {"name": "s2", "data": [at("m_s2_0"), at("m_s2_1")], "modifiers": [mod("st", "staterror", [at("ust_m0"), at("ust_m1")]), mod("sf", "shapefactor"), mod("ns", "normsys", {"hi": at("HI2"), "lo": c(1)})]}]},  # a ONE-SIDED variation (lo exactly 1): declared all the same
     ]}
     mods = sorted({(m["name"], m["type"]) for ch in spec["channels"] for sm in ch["samples"] for m in sm["modifiers"]})
     rec = {"appliers": {}}
